@@ -4881,17 +4881,17 @@ func (a *Agent) TaskDispatch(RequestID uint32, CommandID uint32, Parser *parser.
 					if len(BmpBytes) > 0 {
 						err := logr.LogrInstance.DemonSaveScreenshot(a.NameID, Name, BmpBytes)
 						if err != nil {
+							// the task has still been answered: the operator is told and the request is completed below
 							Message["Type"] = "Error"
 							Message["Message"] = "Failed to take a screenshot: " + err.Error()
-							return
+						} else {
+							Message["Type"] = "Good"
+							Message["Message"] = "Successful took screenshot"
+
+							Message["MiscType"] = "screenshot"
+							Message["MiscData"] = base64.StdEncoding.EncodeToString(BmpBytes)
+							Message["MiscData2"] = Name
 						}
-
-						Message["Type"] = "Good"
-						Message["Message"] = "Successful took screenshot"
-
-						Message["MiscType"] = "screenshot"
-						Message["MiscData"] = base64.StdEncoding.EncodeToString(BmpBytes)
-						Message["MiscData2"] = Name
 					} else {
 						Message["Type"] = "Error"
 						Message["Message"] = "Failed to take a screenshot"
